@@ -210,6 +210,89 @@ def linear_backward(run):
                                         run.add(f"C11/bias-gradient-sums-gO-over-leading-dims[{tag}]/path{pi}", r.hyps, z3.BoolVal(bool(okb)), "property", inst, replay=rp)
 
 
+def linear_dispatch(run):
+    """torch.nn.functional.linear on a quantized weight reaches QTensorLinear.apply with the SAME arguments and with gradient
+    recording left as the caller set it - whatever requires grad among weight and bias (a frozen layer must still pass the gradient
+    of its input to the layers before it)."""
+    for wkind in ("qint8-axis0", "qint4-axis0"):
+        for w_rg in (False, True):
+            for bias in ("none", "no-grad", "grad"):
+                for ambient in (True, False):
+                    inst = {"lemma": "linear dispatch", "weight": wkind, "weight_requires_grad": w_rg, "bias": bias, "ambient_grad": ambient}
+                    run.count_instance(**{"ld_w": wkind, "ld_wrg": w_rg, "ld_bias": bias, "ld_amb": ambient})
+                    E = OC.engine(run)
+                    E.load_module("optimum/quanto/library/__init__.py")
+                    E.load_module(OC.QFUNC)
+                    lin = E.snippet("""
+def call_linear(x, w, b):
+    f = get_qtensor_func(torch.nn.functional.linear)
+    return f(x, w, b)
+""", OC.QFUNC)
+                    K, N, B = z3.Ints("K N B")
+
+                    def prog(E2, wkind=wkind, w_rg=w_rg, bias=bias, ambient=ambient):
+                        for v in (K, N, B):
+                            E2.assume(v >= 1)
+                        h = OC.H(E2, "qint8", 0, "float32")
+                        w = make_weight(E2, h, wkind, N, K, "float32")
+                        w.fields["_w_requires_grad"] = w_rg
+                        x = new_input(E2, "X", "float32", [B, K])
+                        x.requires_grad = True
+                        b = None
+                        if bias != "none":
+                            b = new_input(E2, "B", "float32", [N])
+                            b.requires_grad = (bias == "grad")
+                        E2.ps["grad_enabled"] = ambient
+                        E2.ps["apply_log"] = []
+                        E2.call(lin, [x, w, b], {})
+                        return x, w, b, list(E2.ps["apply_log"]), E2.ps.get("grad_enabled", True)
+
+                    tag = f"{wkind}/w_rg={w_rg}/bias={bias}/ambient={ambient}"
+                    try:
+                        res = E.explore(Builtin("c11d", prog), lambda E2: ([], {}), name="C11.dispatch")
+                    except Unsupported as u:
+                        run.undecide(f"C11/linear-dispatch[{tag}]", u, inst)
+                        continue
+                    run.absorb(E)
+                    if not run.expect_paths(res, f"C11/linear-dispatch[{tag}]", inst):
+                        continue
+                    rp = lambda m, s, i=dict(inst): replay_dispatch(m, s, i)
+                    for pi, r in enumerate(res):
+                        if r.outcome != "return":
+                            run.add(f"C11/linear-dispatch-does-not-raise[{tag}]/path{pi}", r.hyps, z3.BoolVal(False), "property", inst, {"outcome": repr(r.value)[:200]}, replay=rp)
+                            continue
+                        x, w, b, log, after = r.value
+                        log = [e for e in log if e[0] == "QTensorLinear"]   # (inner Functions, e.g. the dequantizer of packed weights, are not the subject)
+                        ok = len(log) == 1 and log[0][0] == "QTensorLinear" and len(log[0][2]) == 3 and log[0][2][0] is x and log[0][2][1] is w and log[0][2][2] is b
+                        run.add(f"C11/linear-applies-the-function-to-its-own-arguments[{tag}]/path{pi}", r.hyps, z3.BoolVal(bool(ok)), "property", inst, replay=rp)
+                        run.add(f"C11/linear-keeps-the-callers-grad-mode[{tag}]/path{pi}", r.hyps, z3.BoolVal(bool(log) and all(e[1] == ambient for e in log) and after == ambient),
+                                "property", inst, {"grad_mode_at_apply": [e[1] for e in log], "ambient": ambient}, replay=rp)
+
+
+def replay_dispatch(model, seed, inst):
+    import torch
+    from optimum.quanto import qtypes, quantize_weight
+
+    torch.manual_seed(seed)
+    qt = qtypes["qint8" if inst["weight"].startswith("qint8") else "qint4"]
+    w = quantize_weight(torch.randn(4, 8), qt, 0).requires_grad_(False)
+    if inst["weight_requires_grad"]:
+        return None   # (a quantized weight that requires grad cannot be built from python; the symbolic case is kept for completeness)
+    x = torch.randn(3, 8, requires_grad=True)
+    b = None if inst["bias"] == "none" else torch.randn(4, requires_grad=(inst["bias"] == "grad"))
+    with torch.set_grad_enabled(inst["ambient_grad"]):
+        out = torch.nn.functional.linear(x, w, b)
+    if inst["ambient_grad"] and not out.requires_grad:
+        return {"what": "the output of a linear with a frozen quantized weight is cut from the graph: its input gets no gradient", "bias": inst["bias"]}
+    if inst["ambient_grad"]:
+        out.sum().backward()
+        want = w.dequantize().sum(0).expand(3, 8)
+        if x.grad is None or not torch.allclose(x.grad, want, atol=1e-5):
+            return {"what": "input gradient differs from gO @ dequantized weight"}
+    return None
+
+
+
 def freshness(run):
     """Until frozen every access to qweight re-quantizes from the CURRENT float weights (no hidden cache); frozen weights get no gradient."""
     for weights in ("qint8", "qint4"):
@@ -304,7 +387,7 @@ def build(run):
     for key in (f"{OC.QFUNC}::QTensorLinear.forward", f"{OC.QFUNC}::QTensorLinear.backward", f"{QMOD}::QModuleMixin.qweight", f"{QMOD}::QModuleMixin.freeze"):
         run.under_contract(E0, key)
     lib.lean_lemmas(run, ["sum_linear", "flat_div", "flat_mod"])
-    for part in (identity_backwards, linear_backward, freshness):
+    for part in (identity_backwards, linear_backward, linear_dispatch, freshness):
         try:
             part(run)
         except Unsupported as u:
@@ -388,6 +471,8 @@ def replay_file(path):
         r = replay_ste({}, 0)
     elif inst.get("lemma") == "qweight freshness":
         r = replay_fresh({}, 0, inst)
+    elif inst.get("lemma") == "linear dispatch":
+        r = replay_dispatch({}, 0, inst)
     else:
         r = replay_linear({}, 0, inst)
     print(json.dumps(r, indent=1, default=str))
